@@ -37,6 +37,16 @@ CLAIMED = {
          "Two or three driver threads (connect/disconnect sequences; numbered sends) plus every valid single-threaded operation sequence up to length 4 (5 thorough) over {Connected, Disconnected, send} with connect/send failures as environment choices. Oracles: at every queue creation no other queue of the peer is live; after a final Connected/Disconnected pair and quiescence no queue goroutine is alive; per driver thread, items leave in build order and never by two queues at once. All schedules within deviation bound 2 (3 for the core scenario; thorough 3).",
          "Trusted: as C15. 'live' = started and not yet told to shut down (DESIGN 7). One defect repaired (successor entry deleted), one recorded (old queue still sending after disconnect).",
          "DESIGN.md 6 C17"),
+ "C07": ("exploration",
+         "bounded-exhaustive enumeration of DAG shapes x selectors x budgets 1..needed+1 x 8 budget placements (global/per-request hook, either peer, two competing budgets), each executed on two real instances, vs. the reference traversal's block count",
+         "Chains, trees and catalogue shapes x selectors x every budget from 1 to needed+1 x placement (requestor global, requestor per-request hook, responder global, responder hook, and both set with the smaller non-zero expected to win), also with the requestor holding everything locally and with several sequential requests on the same instances. Oracle: the enforcing peer loads at most N blocks (requestor: block-hook/visit count, responder: metadata count), no budget failure when needed<=N, exactly N blocks then a budget-exceeded error/failure status when needed>N.",
+         "Trusted: reference traversal for 'needed'; default schedule. One genuine defect repaired (fix: budget 1 failed before the root block).",
+         "DESIGN.md 6 C07"),
+ "C24": ("exploration",
+         "bounded-exhaustive enumeration of DAG shapes x selectors x every requestor-local subset x user do-not-send extensions, each executed on two real instances with a wire monitor, vs. the reference traversal",
+         "Shape catalogue x selectors x every subset of blocks in the requestor's store (responder holds all) x user-supplied {none, do-not-send-first-blocks k, do-not-send-cids S, both}. Oracle: local store complete => no message leaves the requestor; else the first New request's skip value = max(user k, #blocks loaded locally before the first miss), absent when 0; no wire block lies wholly inside the skipped prefix, is in the ignore set, is outside the traversal, or is transmitted twice within the request.",
+         "Trusted: reference traversal, default schedule, FIFO lossless fake network.",
+         "DESIGN.md 6 C24"),
 }
 
 # properties not (yet) claimed -> reason
